@@ -141,6 +141,12 @@ class ExpandedTraceback:
             if frame.filename in student_files:
                 innermost = frame
                 break
+        else:
+            # Code that does not compile never gets a frame of its own: the
+            # line is the one the SyntaxError names in the student's file
+            if (isinstance(exception, SyntaxError) and exception.lineno is not None
+                    and exception.filename in student_files):
+                innermost = (exception.filename, exception.lineno)
         # Use whole-file numbering when the file is being run section by section
         self.line_number = innermost[1] + line_offsets.get(innermost[0], 0)
         self.original_code_lines = original_code_lines
